@@ -226,7 +226,7 @@ class Exec:
         npaths = 0
         while decisions_todo:
             prefix = decisions_todo.pop()
-            self.solver = z3.Solver(); self.solver.set('timeout', 30000)
+            self.solver = z3.Solver(); self.solver.set('timeout', 3000)
             self.mem = {}; self.region_n = 0; self.events = []; self.decisions = list(prefix); self.dpos = 0
             self.steps = 0; self.fresh_n = 0; self.pc = []; self.euclid = {}; self.new_alts = []
             args = setup(self)
@@ -260,7 +260,13 @@ class Exec:
             self.solver.pop()
         self.tq += time.time() - t0
         if r == z3.unknown:
-            raise RuntimeError('solver unknown')
+            # fall back to a fresh, non-incremental solver (full preprocessing)
+            s2 = z3.Solver(); s2.set('timeout', 120000)
+            s2.add(*self.pc)
+            if extra is not None: s2.add(extra)
+            t1 = time.time(); r = s2.check(); self.tq += time.time() - t1; self.nfallback = getattr(self, 'nfallback', 0) + 1
+            if r == z3.unknown:
+                raise RuntimeError('solver unknown')
         return r == z3.sat
 
     def fresh(self, name, bits=64):
